@@ -9,6 +9,10 @@ fn main() {
     let args = Args::parse(&argv);
     rtcmon::common::install_panic_recorder();
     let code = match args.prop.as_str() {
+        "C01" | "C12" | "C13" => rtcmon::engines::sctp_rig::run(&args),
+        "C18" => rtcmon::engines::latch_enum::run(&args),
+        "C15" => rtcmon::engines::codec_diff::run(&args),
+        "C14" => rtcmon::engines::srtp_gate::run(&args),
         other => {
             eprintln!("unknown property/engine {other}");
             2
